@@ -193,6 +193,8 @@ def r1_ops(rng, yastn, cfg, symname, xv, cplx):
     if fused:
         S = tuple(sorted(rng.sample(fused, rng.randint(1, len(fused)))))
         ops.append((f"unfuse_legs({S})", lambda x, S=S: x.unfuse_legs(axes=S)))
+    ax = rng.randrange(nd)
+    ops.append((f"drop_leg_history(axes={ax})", lambda x, ax=ax: x.drop_leg_history(axes=ax)))
     ops.append(("conj", lambda x: x.conj()))
     ops.append(("flip_signature", lambda x: x.flip_signature()))
     ops.append(("norm^2 via vdot", lambda x: yastn.vdot(x, x)))
@@ -565,7 +567,91 @@ def run_r6(ctx, yastn, rng, pid, key, count):
             ctx.fail("oracle", f"{key}:views:R6", f"{name} for blocked hard-fused tensors (fusions {prog}): {g} vs {w}", case=case, concrete=True)
 
 
-RELATIONS = {"R1": run_r1, "R2": run_r2, "R3": run_r3, "R4": run_r4, "R5": run_r5, "R6": run_r6}
+# --------------------------------------------------------------------------------------------------------------------
+# R7: hard-fused operands whose constituent legs differ in CHARGES but not in the tuple of dimensions; n-ary addition
+# --------------------------------------------------------------------------------------------------------------------
+def run_r7(ctx, yastn, rng, pid, key, count):
+    """x on [L1, M, …], y on [L2, M, …] where L1 and L2 hold different charge sets with the SAME tuple of sector dimensions (so a
+    comparison of dimensions alone cannot tell the fusion histories apart).  After the same hard fusion:  fx + fy, fx - fy,
+    add(fx, fy, fx), add(fy, fx, fy) (the odd operand in the middle), vdot, tensordot == the same on the original legs; results are
+    consistent and can be unfused."""
+    symname = rng.choice([s for s in tgen.SYM_NAMES if s != "dense"])
+    cplx = rng.random() < 0.3
+    cfg = tgen.make_cfg(symname, rng.choice(tgen.POLICIES), "hard", dtype="complex128" if cplx else "float64")
+    d = rng.randint(1, 2)
+    ts = set()
+    for _ in range(60):
+        if len(ts) < 4:
+            ts.add(tgen.rand_charge(rng, symname, span=2))
+    ts = sorted(ts)
+    if len(ts) < 3:
+        return
+    k = rng.randint(1, len(ts) - 1)
+    t1 = sorted(rng.sample(ts, k))
+    for _ in range(20):
+        t2 = sorted(rng.sample(ts, k))
+        if t2 != t1:
+            break
+    else:
+        return
+    s0 = rng.choice([1, -1])
+    L1, L2 = yastn.Leg(cfg, s=s0, t=t1, D=[d] * k), yastn.Leg(cfg, s=s0, t=t2, D=[d] * k)
+    others = [tgen.rand_leg(rng, cfg, symname, max_sectors=3, max_dim=2) for _ in range(rng.randint(2, 3))]
+    x = tgen.rand_tensor(rng, cfg, symname, [L1] + others, cplx=cplx, n=cfg.sym.zero(), drop=0.0, allow_empty=True)
+    y = tgen.rand_tensor(rng, cfg, symname, [L2] + others, cplx=cplx, n=cfg.sym.zero(), drop=0.0, allow_empty=True)
+    if x.size == 0 or y.size == 0:
+        return
+    nd = x.ndim
+    g = (0, rng.randint(1, nd - 1))
+    rest = [q for q in range(nd) if q not in g]
+    axes = (g,) + tuple(rest)
+    if rng.random() < 0.5:
+        axes = tuple(rest[:1]) + (g,) + tuple(rest[1:])
+    fx, fy = x.fuse_legs(axes=axes, mode="hard"), y.fuse_legs(axes=axes, mode="hard")
+    flat = tuple(q for a in axes for q in (a if isinstance(a, tuple) else (a,)))
+    fpos = axes.index(g)
+    lazy = rng.random() < 0.4
+    if lazy:
+        pr = list(range(fx.ndim)); rng.shuffle(pr)
+        fx, fy = fx.transpose(axes=tuple(pr)), fy.transpose(axes=tuple(pr))
+    case = {"relation": "R7", "sym": symname, "x": tgen.to_model(x), "y": tgen.to_model(y), "axes": [list(a) if isinstance(a, tuple) else a for a in axes], "lazy": lazy}
+    ctx.case({"relation": "R7", "sym": symname, "k": k, "lazy": lazy}, nontrivial=len(x.struct.t) + len(y.struct.t) >= 3)
+    same_D = fx.get_legs(pr.index(fpos) if lazy else fpos).hf.D == fy.get_legs(pr.index(fpos) if lazy else fpos).hf.D
+    count(f"views:R7:history-dimensions-equal:{same_D}")
+
+    def back(r):   # result on fused legs -> original leg order
+        if lazy:
+            r = r.transpose(axes=tuple(pr.index(q) for q in range(len(pr))))
+        u = r.unfuse_legs(axes=fpos)
+        return u.transpose(axes=tuple(flat.index(q) for q in range(nd)))
+    table = [("fx + fy", lambda: fx + fy, lambda: x + y), ("fx - fy", lambda: fx - fy, lambda: x - y),
+             ("add(fx, fy, fx)", lambda: yastn.add(fx, fy, fx, amplitudes=[1, 2, -3]), lambda: yastn.add(x, y, x, amplitudes=[1, 2, -3])),
+             ("add(fy, fx, fy)", lambda: yastn.add(fy, fx, fy), lambda: yastn.add(y, x, y)),
+             ("add(fx, fx, fy, fx)", lambda: yastn.add(fx, fx, fy, fx), lambda: yastn.add(x, x, y, x))]
+    for name, got, want in table:
+        try:
+            w = want()
+        except Exception:  # noqa: BLE001
+            continue
+        try:
+            r = got()
+            msg = consistent(r)
+            u = back(r)
+            msg = msg or eq_union(yastn, u, w)
+        except Exception as e:  # noqa: BLE001
+            msg = f"raised {type(e).__name__}: {e}"
+        if msg:
+            ctx.fail("oracle", f"{key}:views:R7:{name.split('(')[0].strip().replace(' ', '')}", f"{name} for hard-fused operands whose fused legs hold different charges with "
+                     f"{'the same' if same_D else 'different'} dimension tuples: {msg}", case=case, concrete=True)
+    try:
+        v1, v0 = complex(yastn.vdot(fx, fy)), complex(yastn.vdot(x, y))
+        if abs(v1 - v0) > 1e-9 * max(1.0, abs(v0)):
+            ctx.fail("oracle", f"{key}:views:R7:vdot", f"vdot over fused legs {v1} != vdot over the original legs {v0}", case=case, concrete=True)
+    except Exception as e:  # noqa: BLE001
+        ctx.fail("oracle", f"{key}:views:R7:vdot", f"vdot of hard-fused operands with different charges raised {type(e).__name__}: {e}", case=case, concrete=True)
+
+
+RELATIONS = {"R1": run_r1, "R2": run_r2, "R3": run_r3, "R4": run_r4, "R5": run_r5, "R6": run_r6, "R7": run_r7}
 
 
 def run(ctx, ncases, budget, which=("R1", "R1", "R1", "R2", "R3", "R4"), key=None):
